@@ -154,6 +154,9 @@ VH_AREA(fsim) {
                 auto r1 = TableauSimulator<64>::sample_circuit(quiet, rb, -1);
                 bool det = true;
                 for (size_t q = 0; q < stats.num_measurements; q++) det &= (r0[q] == r1[q]);
+                // channels that stay random at probability 1
+                for (const auto &op : big.flattened().operations)
+                    if ((op.gate_type == GateType::DEPOLARIZE1 || op.gate_type == GateType::DEPOLARIZE2 || op.gate_type == GateType::HERALDED_ERASE) && op.args[0] > 0) det = false;
                 if (det) {
                     st.hit("cases.outcome_deterministic");
                     for (int f = 0; f < 6; f++) {
